@@ -41,6 +41,10 @@ def step (s : St) (ts : List String) : St × List String :=
   | "gdiag" :: a :: g0 :: g1 :: n :: rest =>
     let q0 := 4 * intD g0; let q1 := 4 * intD g1
     (setG a (ofDiagramGrid (diagOf rest) q0 q1 ((q1 - q0) / (natD n : Int)) s.lo s.hi), ["gdiag"])
+  | "gdiagl" :: a :: g0 :: g1 :: n :: nlev :: rest =>
+    -- the constructor that keeps only the first `nlev` landscape functions
+    let q0 := 4 * intD g0; let q1 := 4 * intD g1
+    (setG a ((ofDiagramGrid (diagOf rest) q0 q1 ((q1 - q0) / (natD n : Int)) s.lo s.hi).take (natD nlev)), ["gdiagl"])
   | ["eval", a, nl] => (s, evalLines (E a) (natD nl) width)
   | ["geval", a, nl] => (s, evalLines (G a) (natD nl) width)
   | ["add", c, a, b'] => (setE c (add (E a) (E b')), ["add"])
